@@ -245,7 +245,7 @@ E0, S0 = (P.EVar(0),), (P.SVar(0),)
 RAW_EVENTS = [
     ('evar 0', ev_push('evar', 0)), ('evar 1', ev_push('evar', 1)), ('svar 0', ev_push('svar', 0)),
     ('symbol a', ev_push('symbol', 'a')), ('symbol b', ev_push('symbol', 'b')),
-    ('metavar 0', ev_push('metavar', 0)), ('metavar 1', ev_push('metavar', 1)),
+    ('metavar 0', ev_push('metavar', 0)), ('metavar 1', ev_push('metavar', 1)), ('metavar 10', ev_push('metavar', 10)),
     ('metavar 0 e_fresh x0', ev_push('metavar', 0, E0)), ('metavar 1 s_fresh X0', ev_push('metavar', 1, (), S0)),
     ('metavar 0 positive X0', ev_push('metavar', 0, (), (), S0)),
     ('metavar 0 holes x1', ev_push('metavar', 0, (), (), (), (), (P.EVar(1),))),
@@ -260,6 +260,7 @@ RAW_EVENTS = [
     ('instantiate (0)', ev_inst((0,))), ('instantiate (1)', ev_inst((1,))), ('instantiate (2)', ev_inst((2,))),
     ('instantiate (0,1)', ev_inst((0, 1))), ('instantiate (1,0)', ev_inst((1, 0))), ('instantiate (0,2)', ev_inst((0, 2))),
     ('instantiate (2,0)', ev_inst((2, 0))), ('instantiate (1,2)', ev_inst((1, 2))), ('instantiate (2,1)', ev_inst((2, 1))),
+    ('instantiate (1,10)', ev_inst((1, 10))), ('instantiate (10,1)', ev_inst((10, 1))),
     ('pop', ev_pop), ('save', ev_save), ('load 0', ev_load(0)), ('load 1', ev_load(1)), ('load 2', ev_load(2)),
     ('publish', ev_publish), ('next phase', ev_phase),
 ]
